@@ -322,6 +322,9 @@ pub fn spools() -> &'static SPools {
             b"QUUX-V01-CS02-with-BLS12381G2_XMD:SHA-256_SSWU_RO_".to_vec(),
             b"x".to_vec(),
             vec![0x44; 255],
+            // longer than 255 bytes (the XMD length byte): two different tags of the same length
+            (0..300u32).map(|i| (i * 7 + 1) as u8).collect(),
+            (0..300u32).map(|i| (i * 13 + 5) as u8).collect(),
         ];
         // encodings: valid, then a few invalid ones (flipped bit, wrong flag, non-subgroup)
         let mut enc_g1: Vec<(Vec<u8>, bool)> = vec![];
